@@ -10,6 +10,13 @@ from lib import hx, unhx, show_list
 from pycoin.merkle import merkle as pycoin_merkle
 from pycoin.encoding.hash import double_sha256
 from pycoin.symbols.btc import network as BTC
+from pycoin.symbols.ltc import network as LTC
+
+import io
+import msglib as M
+from txlib import compact_size, ref_wire
+
+NET = {"btc": BTC, "ltc": LTC}
 
 MANIFEST = {
     "text": "Lean theorems over models of merkle/merkle_pair and of post_unpack_merkleblock/_recurse: the loop equals the recursive "
@@ -118,6 +125,15 @@ def impl(op: str) -> str:
             total, hashes, flags, root = int(a[1]), parse_hashes(a[2]), unhx(a[3]), unhx(a[4])
             d = BTC.message.parse("merkleblock", merkleblock_bytes(total, hashes, flags, root))
             return "ok " + show_list(d["tx_hashes"], hx)
+        if k == "block_rt":
+            blk = NET[a[1]].block.from_bin(bytes.fromhex(a[2]))
+            return "ok %s %s %d" % (blk.as_bin().hex(), blk.id(), len(blk.txs))
+        if k == "header_rt":
+            f = io.BytesIO(unhx(a[1]))
+            blk = BTC.block.parse_as_header(f)
+            g = io.BytesIO()
+            blk.stream_header(g)
+            return "ok %s %s %d" % (g.getvalue().hex(), blk.id(), len(f.getvalue()) - f.tell())
     except Exception as e:  # noqa: BLE001
         return "err " + type(e).__name__
     return "bad-op"
@@ -132,6 +148,27 @@ def oracle(op: str, out: str):
             return None if out.startswith("err") else "merkle([]) returned a value"
         if out != "ok " + hx(ref_root(hs)):
             return "merkle(hashes) differs from the recursive Bitcoin definition (hashlib reference)"
+    if k == "block_rt" and len(a) > 3:
+        data = bytes.fromhex(a[2])
+        if a[3] == "honest":
+            want_id = dsha(data[:80])[::-1].hex()
+            if not out.startswith("ok "):
+                return "honest block (canonical encoding, correct merkle root) rejected: " + out
+            _, hexs, bid, ntx = out.split(" ")
+            if hexs != a[2]:
+                return "Block.from_bin(b).as_bin() != b"
+            if bid != want_id:
+                return "block id is not the double-SHA256 of the 80-byte header"
+        elif a[3] == "tampered":
+            if out != "err BadMerkleRootError":
+                return "block whose transactions do not hash to the header's merkle root was not rejected with BadMerkleRootError: " + out[:40]
+    if k == "header_rt" and out.startswith("ok "):
+        data = unhx(a[1])
+        _, hexs, bid, left = out.split(" ")
+        if bytes.fromhex(hexs) != data[:80] or int(left) != len(data) - 80:
+            return "header does not round-trip as exactly 80 bytes"
+        if bid != dsha(data[:80])[::-1].hex():
+            return "block id is not the double-SHA256 of the 80-byte header"
     if k == "pmt_verify" and len(a) > 5:
         tag = a[5]
         if tag.startswith("honest:"):
@@ -150,6 +187,8 @@ def trivial(op: str) -> bool:
         return a[5] == "honest:~"
     if a[0] == "pmt_build":
         return "1" not in a[2]
+    if a[0] == "block_rt":
+        return len(a) > 3 and a[3] == "any"
     return False
 
 
@@ -215,8 +254,80 @@ def emit_proof_cases(emit, rng, txids, matches, corrupt: bool, every_position: b
         emit(verify_line(n, hashes, bytes(f2), root, "any:flag-flipped@%d" % b))
 
 
+def tampered_block(rng, ntx, segwit_ok=True):
+    """an honest block in which one transaction is then changed in a field its txid commits to (header untouched)"""
+    txf = [M.random_tx_fields(rng, segwit_ok) for _ in range(ntx)]
+    root = M.ref_merkle([M.tx_hash_legacy(f) for f in txf])
+    hdr = M.header_bytes(2, rng.randbytes(32), root, rng.randrange(2 ** 32), 0x1D00FFFF, rng.randrange(2 ** 32))
+    i = rng.randrange(ntx)
+    v, lock, ins, outs = txf[i]
+    mode = rng.randrange(4)
+    if mode == 0:
+        lock = (lock + 1) % 2 ** 32
+    elif mode == 1:
+        outs = [(outs[0][0] ^ 1, outs[0][1])] + outs[1:]
+    elif mode == 2:
+        h, idx, sc, q, w = ins[0]
+        ins = [(h, idx ^ 1, sc, q, w)] + ins[1:]
+    else:
+        v = (v + 1) % 2 ** 32
+    txf[i] = (v, lock, ins, outs)
+    if mode == 3 and ntx > 1 and rng.random() < 0.5:   # or: two transactions swapped
+        txf[i] = (v - 1 if v else 2 ** 32 - 1, lock, ins, outs)
+        j = (i + 1) % ntx
+        if M.tx_hash_legacy(txf[i]) != M.tx_hash_legacy(txf[j]):
+            txf[i], txf[j] = txf[j], txf[i]
+        else:
+            txf[i] = (v, lock, ins, outs)
+    return hdr + compact_size(ntx) + b"".join(ref_wire(f) for f in txf)
+
+
+def gen_blocks(ctx, emit):
+    rng = ctx.rng
+    # headers: exactly 80 bytes, with trailing bytes, truncated
+    for _ in range(ctx.n(40, 2000)):
+        hdr = M.header_bytes(rng.choice([0, 1, 2, 2 ** 32 - 1, rng.randrange(2 ** 32)]), rng.randbytes(32), rng.randbytes(32),
+                             rng.choice([0, 2 ** 32 - 1, rng.randrange(2 ** 32)]), rng.randrange(2 ** 32), rng.choice([0, 2 ** 32 - 1, rng.randrange(2 ** 32)]))
+        emit("header_rt " + hx(hdr))
+        emit("header_rt " + hx(hdr + rng.randbytes(rng.choice([1, 5, 100]))))
+        emit("header_rt " + hx(hdr[: rng.choice([0, 1, 4, 35, 36, 67, 68, 72, 76, 79])]))
+    # blocks: 1..N transactions across powers of two and odd sizes, BTC and LTC classes
+    sizes = [1, 2, 3, 4, 5, 7, 8, 9, 15, 16, 17] + ([31, 32, 33, 64, 100] if ctx.thorough else [33])
+    for coin in ("btc", "ltc"):
+        for n in sizes:
+            blob = M.random_block(rng, n)[0]
+            emit("block_rt %s %s honest" % (coin, blob.hex()))
+            emit("block_rt %s %s tampered" % (coin, M.random_block(rng, n, bad_root=True)[0].hex()))
+            emit("block_rt %s %s tampered" % (coin, tampered_block(rng, n).hex()))
+        for _ in range(ctx.n(25, 1500)):
+            n = rng.choice([1, 1, 2, 3, 5, 6, 11, 13])
+            kind = rng.randrange(6)
+            if kind <= 1:
+                emit("block_rt %s %s honest" % (coin, M.random_block(rng, n)[0].hex()))
+            elif kind == 2:
+                emit("block_rt %s %s tampered" % (coin, tampered_block(rng, n).hex()))
+            else:
+                blob = bytearray(M.random_block(rng, n)[0])
+                if kind == 3:
+                    blob[rng.randrange(len(blob))] ^= 1 << rng.randrange(8)   # anywhere, incl. witness data and counts
+                elif kind == 4:
+                    del blob[rng.randrange(len(blob)):]
+                else:
+                    blob += rng.randbytes(3)                                   # bytes after the last transaction
+                emit("block_rt %s %s any" % (coin, bytes(blob).hex()))
+        # header only / zero transactions announced / count larger than the transactions present
+        hdr = M.random_block(rng, 1)[1]
+        emit("block_rt %s %s any" % (coin, hdr.hex()))
+        emit("block_rt %s %s any" % (coin, (hdr + b"\x00").hex()))
+        blob, hdr, txb, _ = M.random_block(rng, 2)
+        emit("block_rt %s %s any" % (coin, (hdr + b"\x03" + b"".join(txb)).hex()))
+        emit("block_rt %s %s any" % (coin, (hdr + b"\x01" + b"".join(txb)).hex()))
+        emit("block_rt %s %s any" % (coin, (hdr + b"\xfd\x02\x00" + b"".join(txb)).hex()))   # non-canonical count
+
+
 def gen(ctx, emit):
     rng = ctx.rng
+    gen_blocks(ctx, emit)
 
     def rh():
         return bytes(rng.randrange(256) for _ in range(32))
